@@ -8,6 +8,7 @@
   factor as given), monotonicity of the salt-solution viscosity/density, the `brentq` molarity→molality conversion.
 -/
 import Verif.Lemmas.C20
+import Verif.Lemmas.C20D
 
 namespace Verif.C20
 open Verif Filter Topology MeasureTheory Set
@@ -493,5 +494,218 @@ theorem bisect_brackets_sign_change (g : ℝ → ℝ) (k : ℕ) (lo hi : ℝ) (h
 example : ∃ a b, (0:ℝ) ≤ a ∧ a ≤ b ∧ b ≤ 6 ∧ b - a = (6 - 0) / 2 ^ 100 ∧ 0 ≤ (fun m => 3 - m) a ∧
     (fun m => 3 - m) b ≤ 0 ∧ bisect (fun m : ℝ => 3 - m) 100 0 6 = (a + b) / 2 :=
   bisect_brackets_sign_change _ 100 0 6 (by norm_num) (by norm_num) (by norm_num)
+
+/-! ## Deepening round D -/
+
+/-! ### NaCl solutions (Kestin–Khalifa–Correia): monotone in the concentration, joining pure water continuously -/
+
+/-- Kestin Eq. 2–5: the zero-pressure viscosity of the solution increases strictly with the molality, over the whole
+    validity range of the model (20–150 °C, 0–6 mol/kg). -/
+theorem salt_zero_pressure_viscosity_increases_with_concentration (t m₁ m₂ : ℝ) (ht0 : 20 ≤ t) (ht1 : t ≤ 150)
+    (h0 : 0 ≤ m₁) (h12 : m₁ < m₂) (h6 : m₂ ≤ 6) : zeroPressureViscosity t m₁ < zeroPressureViscosity t m₂ := by
+  rw [zpv_real, zpv_real]
+  obtain ⟨q0, q1⟩ := waterExp_bounds t ht0 ht1
+  have hE := saltExp_strictMono (waterExp t) m₁ m₂ q0 q1 h0 h12 h6
+  exact mul_lt_mul_of_pos_left ((Real.rpow_lt_rpow_left_iff (by norm_num : (1:ℝ) < 10)).mpr hE) (muW_pos t)
+
+example : zeroPressureViscosity (25:ℝ) 0 < zeroPressureViscosity (25:ℝ) 1 :=
+  salt_zero_pressure_viscosity_increases_with_concentration 25 0 1 (by norm_num) (by norm_num) (by norm_num)
+    (by norm_num) (by norm_num)
+
+/-- The viscosity `viscosity_of_water` answers for a salt solution (Eq. 1: zero-pressure value × pressure correction,
+    in Pa·s) is positive and increases strictly with the molality at every temperature 20–150 °C and pressure 0–35 MPa:
+    the zero-pressure value grows by ≥ 6.6 % per mol/kg, the pressure coefficient moves by ≤ 0.625 per mol/kg. -/
+theorem salt_viscosity_increases_with_concentration (t p m₁ m₂ : ℝ) (ht0 : 20 ≤ t) (ht1 : t ≤ 150) (hp0 : 0 ≤ p)
+    (hp1 : p ≤ 35) (h0 : 0 ≤ m₁) (h12 : m₁ < m₂) (h6 : m₂ ≤ 6) :
+    saltViscosity t m₁ p < saltViscosity t m₂ p :=
+  saltViscosity_strictMono t p m₁ m₂ ht0 ht1 hp0 hp1 h0 h12 h6
+
+example : saltViscosity (25:ℝ) 0 0.101325 < saltViscosity (25:ℝ) 1 0.101325 :=
+  salt_viscosity_increases_with_concentration 25 0.101325 0 1 (by norm_num) (by norm_num) (by norm_num) (by norm_num)
+    (by norm_num) (by norm_num) (by norm_num)
+
+/-- The density of the solution is positive and increases strictly with the molality (the specific volume of the
+    correlation is a quadratic in the salt mass fraction whose derivative is negative on the validity range). -/
+theorem salt_density_increases_with_concentration (t p m₁ m₂ : ℝ) (ht0 : 20 ≤ t) (ht1 : t ≤ 150) (hp0 : 0 ≤ p)
+    (hp1 : p ≤ 35) (h0 : 0 ≤ m₁) (h12 : m₁ < m₂) (h6 : m₂ ≤ 6) :
+    0 < saltDensity t m₁ p ∧ saltDensity t m₁ p < saltDensity t m₂ p := by
+  rw [saltDensity_real, saltDensity_real]
+  have k0 : (293.15:ℝ) ≤ t + 273.15 := by linarith
+  have k1 : t + 273.15 ≤ (423.15:ℝ) := by linarith
+  obtain ⟨a0, a1⟩ := wfrac_bounds m₁ h0 (by linarith)
+  obtain ⟨b0, b1⟩ := wfrac_bounds m₂ (by linarith) h6
+  have hw := wfrac_strictMono m₁ m₂ h0 h12
+  have p1 := specVol_pos (t + 273.15) p (wfrac m₁) k0 k1 hp0 hp1 a0 a1
+  have p2 := specVol_pos (t + 273.15) p (wfrac m₂) k0 k1 hp0 hp1 b0 b1
+  have hlt := specVol_strictAnti (t + 273.15) p (wfrac m₁) (wfrac m₂) k0 k1 hp0 hp1 a0 hw b1
+  exact ⟨one_div_pos.mpr (by linarith), one_div_lt_one_div_of_lt (by linarith) hlt⟩
+
+example : saltDensity (25:ℝ) 0 0.101325 < saltDensity (25:ℝ) 1 0.101325 :=
+  (salt_density_increases_with_concentration 25 0.101325 0 1 (by norm_num) (by norm_num) (by norm_num) (by norm_num)
+    (by norm_num) (by norm_num) (by norm_num)).2
+
+
+/-- The salt models join the pure-water values CONTINUOUSLY: as the molality tends to zero the viscosity tends to the
+    model's own water term `μ_w(t)(1 + β_w(t) p/1000)` and the density to its value at `m = 0`, which is the pure-water
+    part of the correlation (no mass-fraction term). -/
+theorem salt_models_join_water_continuously (t p : ℝ) (ht0 : 20 ≤ t) (ht1 : t ≤ 150) (hp0 : 0 ≤ p) (hp1 : p ≤ 35) :
+    Tendsto (fun m => saltViscosity t m p) (𝓝 0) (𝓝 (1e-6 * muW t * (1 + betaW t * p / 1000))) ∧
+    Tendsto (fun m => saltDensity t m p) (𝓝 0) (𝓝 (saltDensity t 0 p)) ∧
+    saltDensity t 0 p = 1 / (dT1 (t + 273.15) - dT2 (t + 273.15) * p - dT3 (t + 273.15) * p ^ 2
+      - 0.5 * dT8 (t + 273.15) * p ^ 2) := by
+  refine ⟨?_, ?_, ?_⟩
+  · have h := (saltViscosity_continuous t p).tendsto 0
+    rwa [(salt_joins_water t p).2.2] at h
+  · have k0 : (293.15:ℝ) ≤ t + 273.15 := by linarith
+    have k1 : t + 273.15 ≤ (423.15:ℝ) := by linarith
+    have hpos := specVol_pos (t + 273.15) p (wfrac 0) k0 k1 hp0 hp1 (by rw [wfrac_zero]) (by rw [wfrac_zero]; norm_num)
+    have hc : ContinuousAt (fun m => 1 / specVol (t + 273.15) p (wfrac m)) 0 := by
+      apply ContinuousAt.div continuousAt_const _ (by linarith)
+      have hw := wfrac_continuous
+      unfold specVol
+      fun_prop
+    have := hc.tendsto
+    simp only [← saltDensity_real] at this
+    exact this
+  · rw [saltDensity_real, wfrac_zero]; unfold specVol; ring_nf
+
+example : Tendsto (fun m => saltDensity (25:ℝ) m 0.101325) (𝓝 0) (𝓝 (saltDensity 25 0 0.101325)) :=
+  (salt_models_join_water_continuously 25 0.101325 (by norm_num) (by norm_num) (by norm_num) (by norm_num)).2.1
+
+
+/-! ### The hydrodynamic model for small beads -/
+
+/-- With the bead's own Stokes drag `γ₀ = 3πη·(2R)` the characteristic frequencies `f_ν = η/(πρR²)` and
+    `f_m = 9η/(4πρ_bead R²)` grow without bound as `R → 0⁺`, and the hydrodynamically correct spectrum (bulk) tends
+    to the Lorentzian at EVERY frequency `f ≥ 0`: their ratio → 1. -/
+theorem hydro_bulk_small_bead_limit (f fc D eta rhoS rhoB : ℝ) (hf : 0 ≤ f) (hfc : 0 < fc) (hD : D ≠ 0)
+    (heta : 0 < eta) (hrho : 0 < rhoS) :
+    Tendsto (fun R => hydroPsd f fc D (sphereFriction eta (2 * R)) R rhoS rhoB none / lorentzian f fc D)
+      (𝓝[>] 0) (𝓝 1) := by
+  have hpi := Real.pi_pos
+  -- r(R) = f / f_ν and f / f_m as functions of the radius
+  let r : ℝ → ℝ := fun R => f * (Real.pi * rhoS * R ^ 2) / eta
+  let q : ℝ → ℝ := fun R => f * (4 * Real.pi * R ^ 2 * rhoB) / (9 * eta)
+  let H : ℝ → ℝ := fun R => D / Real.pi ^ 2 * (1 + Real.sqrt (r R)) /
+        ((fc + f * ((-Real.sqrt (r R) - 2 / 9 * (r R)) - q R)) ^ 2 + (f * (1 + Real.sqrt (r R))) ^ 2)
+  have hL0 : lorentzian f fc D ≠ 0 := by
+    rw [lorentzian_real]
+    have : 0 < f ^ 2 + fc ^ 2 := by positivity
+    positivity
+  have hH : ContinuousAt H 0 := by
+    apply ContinuousAt.div
+    · fun_prop
+    · fun_prop
+    · simp only [H, r, q]; norm_num; positivity
+  have hHL : ContinuousAt (fun R => H R / lorentzian f fc D) 0 := hH.div continuousAt_const hL0
+  have e : H 0 / lorentzian f fc D = 1 := by
+    rw [lorentzian_real]
+    simp only [H, r, q]
+    norm_num
+    have : f ^ 2 + fc ^ 2 ≠ 0 := by positivity
+    field_simp
+    ring
+  have h0 : Tendsto (fun R => H R / lorentzian f fc D) (𝓝[>] 0) (𝓝 1) := by
+    have := hHL.tendsto.mono_left (nhdsWithin_le_nhds (s := Set.Ioi 0))
+    rwa [e] at this
+  apply h0.congr'
+  filter_upwards [self_mem_nhdsWithin] with R hR
+  have hR' : 0 < R := hR
+  have hnu : 0 < frequencyNu (sphereFriction eta (2 * R)) rhoS R := by
+    rw [frequencyNu_stokes eta rhoS R heta hrho hR']; positivity
+  rw [hydroPsd_bulk _ _ _ _ _ _ _ hf hnu, frequencyNu_stokes eta rhoS R heta hrho hR', frequencyM_stokes eta rhoB R hR']
+  simp only [H, r, q]
+  congr 3
+  all_goals (try field_simp)
+
+
+example : Tendsto (fun R => hydroPsd 1000 500 2 (sphereFriction (1e-3:ℝ) (2 * R)) R 997 1060 none / lorentzian 1000 500 2)
+    (𝓝[>] 0) (𝓝 1) :=
+  hydro_bulk_small_bead_limit _ _ _ _ _ _ (by norm_num) (by norm_num) (by norm_num) (by norm_num) (by norm_num)
+
+/-! ### The constructor establishes the hypotheses of the wall-correction theorems -/
+
+/-- What `PassiveCalibrationModel.__init__` accepts near a surface (no hydrodynamic correction): the validation chain
+    ESTABLISHES the hypotheses of `faxen_gt_one` / `brenner_gt_one` (`d ≥ 0.01 µm`, `l ≥ d/2`; a viscosity above
+    0.0003 Pa·s or the positive water viscosity at `5 < T < 90`), so the model it returns has a wall correction above
+    one and reports a drag above the bulk Stokes drag `3πηd` (for the axial factor: off contact, where it is singular). -/
+theorem passive_init_wall_drag_exceeds_bulk (c : PassiveCfg ℝ) (m : Passive ℝ) (l : ℝ) (h : Passive.init c = .ok m)
+    (hh : c.hydro = false) (hl : c.distance = some l) (hax : c.axial = true → c.diameter / 2 < l) :
+    1 < m.dragCorrection ∧ 0 < m.dragCoeff ∧ m.dragCoeff < m.drag ∧
+      m.dragCoeff = 3 * Real.pi * m.viscosity * (c.diameter * 1e-6) := by
+  obtain ⟨d, visc, T, hydro, dist, rhoS, rhoB, fast, ax⟩ := c
+  simp only at hh hl hax ⊢
+  subst hh hl
+  unfold Passive.init at h
+  simp only [RealLike.lt, RealLike.le, Bool.false_eq_true, if_false, decide_eq_true_eq] at h
+  -- the viscosity the model uses is positive in both branches of `viscosity if viscosity is not None else …`
+  have key : ∀ η : ℝ, 0 < η → (0.01:ℝ) ≤ d → d / 2 ≤ l →
+      (if isZero l = true then (1.0:ℝ) else if ax = true then brenner (l * 1.0e-6) (d * 1.0e-6 / 2.0)
+        else faxen (l * 1.0e-6) (d * 1.0e-6 / 2.0)) = m.dragCorrection →
+      sphereFriction η (d * 1.0e-6) = m.dragCoeff → η = m.viscosity →
+      1 < m.dragCorrection ∧ 0 < m.dragCoeff ∧ m.dragCoeff < m.drag ∧
+        m.dragCoeff = 3 * Real.pi * m.viscosity * (d * 1e-6) := by
+    intro η hη hd hl2 hcorr hdrag hvisc
+    have hR : (0:ℝ) < d * 1e-6 / 2 := by linarith
+    have hRl : d * 1e-6 / 2 ≤ l * 1e-6 := by linarith
+    have hz : isZero l = false := by rw [isZero_real]; simp; linarith
+    have hgt : 1 < m.dragCorrection := by
+      rw [← hcorr, hz]
+      simp only [Bool.false_eq_true, if_false]
+      cases ax with
+      | true =>
+        have := brenner_gt_one (l * 1e-6) (d * 1e-6 / 2) hR (by have := hax rfl; linarith)
+        simp only [if_true]; norm_num at this ⊢; exact this
+      | false =>
+        have := faxen_gt_one (l * 1e-6) (d * 1e-6 / 2) hR hRl
+        simp only [Bool.false_eq_true, if_false]; norm_num at this ⊢; exact this
+    obtain ⟨a1, a2, a3⟩ := wall_arith η d m.dragCorrection hη hd hgt
+    have e : sphereFriction η (d * 10e-7) = m.dragCoeff := by rw [← hdrag]
+    rw [e] at a1 a2 a3
+    exact ⟨hgt, a1, a2, by rw [a3, hvisc]⟩
+  cases visc with
+  | none =>
+    simp only at h
+    split_ifs at h
+    all_goals (cases h)
+    all_goals
+      have hd : (0.01:ℝ) ≤ d := by have := ‹¬d < 10e-3›; norm_num at this ⊢; exact this
+      have hl2 : d / 2 ≤ l := by have := ‹¬l < d / 2.0›; norm_num at this ⊢; exact this
+      have hT : -273.15 < T := by
+        have := ‹¬(!(decide (5.0 < T) && decide (T < 90.0))) = true›
+        have h5 : (5.0:ℝ) < T := by
+          by_contra hc
+          exact this (by simp [hc])
+        norm_num at h5; linarith
+      exact key (viscosityWater T) (viscosity_water_pos T hT) hd hl2 (by simp [*]) rfl rfl
+  | some v =>
+    simp only at h
+    split_ifs at h
+    all_goals (cases h)
+    all_goals
+      have hd : (0.01:ℝ) ≤ d := by have := ‹¬d < 10e-3›; norm_num at this ⊢; exact this
+      have hl2 : d / 2 ≤ l := by have := ‹¬l < d / 2.0›; norm_num at this ⊢; exact this
+      have hv : 0 < v := by have := ‹¬decide (v ≤ 3e-4) = true›; simp only [decide_eq_true_eq] at this; norm_num at this; linarith
+      exact key v hv hd hl2 (by simp [*]) rfl rfl
+
+
+/-- a 1 µm bead 1 µm above the surface in a 1 mPa·s medium passes the validation (so the theorem is not vacuous) -/
+example : ∃ m : Passive ℝ,
+    Passive.init ⟨1, some 1e-3, 20, false, some 1, none, 1060, false, false⟩ = .ok m ∧ 1 < m.dragCorrection := by
+  have h : ∃ m : Passive ℝ, Passive.init ⟨1, some 1e-3, 20, false, some 1, none, 1060, false, false⟩ = .ok m := by
+    unfold Passive.init
+    simp only [RealLike.lt, RealLike.le, isZero_real]
+    norm_num
+  obtain ⟨m, hm⟩ := h
+  exact ⟨m, hm, (passive_init_wall_drag_exceeds_bulk _ m 1 hm rfl rfl (by simp)).1⟩
+
+/-- the hypothesis on the axial factor is necessary: at contact (`l = d/2`, which the validation lets through) the
+    Brenner denominator vanishes — the factor is not a number above one there (kernel-checked witness) -/
+example : brennerDen (1 : ℝ) = 0 ∧ ¬ 1 < brenner (1 : ℝ) 1 := by
+  have h : brennerDen (1 : ℝ) = 0 := by rw [brennerDen_real]; unfold brennerP; norm_num
+  refine ⟨h, ?_⟩
+  simp only [brenner]
+  have : ((1:ℝ) / 1) = 1 := by norm_num
+  rw [this, h]; norm_num
 
 end Verif.C20
